@@ -28,7 +28,7 @@ RECURSIVE StrToNat(_, _)
 StrToNat(s, acc) == IF Len(s) = 0 THEN acc ELSE StrToNat(SubSeq(s, 2, Len(s)), (acc * 10 + Digit(SubSeq(s, 1, 1))) % 100000)
 SeedVal == IF "C38_SEED" \in DOMAIN IOEnv THEN StrToNat(IOEnv.C38_SEED, 0) ELSE 1
 
-SampleMod == 41
+SampleMod == 97
 Graphs4 == { EdgesOfIndex(i) : i \in { j \in 0..65535 : j % SampleMod = SeedVal % SampleMod } }
 Graphs3 == SUBSET (Nodes3 \X Nodes3)
 (* quick: all 512 digraphs on 3 nodes for the left-recursive definition (the one that loops without tabling),   *)
